@@ -107,13 +107,20 @@ PROPS["C10"]["stages"].append(tierb_misc.fft_reset_stage)
 
 prop("C05", level="other",
      stages=[tierc.stage_for("C05"), tierb_async.stage_for("C05")],
-     technique="Tier B buffer-window obligations (history shift / chunk load / carried position) + Z3; Verus on the FFT block bookkeeping",
+     technique="Tier B buffer-window obligations (history shift / chunk load / carried position) + Z3; Verus on the FFT block bookkeeping; Kani relational "
+               "runs of the compiled code (same symbolic input stream, two chunkings / variants, bit-identical common prefix)",
      explanation="Output independent of chunking: the buffer-window invariant (buffer[j] holds stream frame consumed - fill - 2L + j) is preserved by the "
                  "history shift and chunk load of every call (shift source == what the previous call loaded, load appended right after the 2L history, "
                  "also when guarded by a condition), set_chunk_size leaves position, ratios and recorded fill untouched, the carried position is "
                  "relative to the frames just consumed. The step from these contracts to 'two chunkings give the same samples' is a meta-argument "
-                 "(DESIGN.md 4 C05), not a machine-checked relational proof.",
-     trusted_base=FFT_TRUST, assumptions=list(tierb_async.ASSUME_TEXT))
+                 "(DESIGN.md 4 C05), not a machine-checked relational proof for all sizes. The relational statement itself is checked on the compiled code for "
+                 "bounded shapes (kani/gen/gen_c05.py): one stream of 12-20 arbitrary samples is fed to chunk 4 vs chunk 2, to the fixed-output vs the fixed-input "
+                 "variant (including output chunks so small that calls need no input), to a sinc resampler whose chunk size is changed repeatedly in mid-stream vs a "
+                 "constant one, and to FftFixedIn / FftFixedOut (chunk smaller than, equal to, larger than the FFT block) vs FftFixedInOut; ratios are powers of two so "
+                 "that positions are exact, the interpolation is Nearest (pure data movement; the interpolating degrees run on one concrete stream in the thorough "
+                 "tier), and the two output streams must be bit-identical on a common prefix that reaches past the start-up silence and several chunk boundaries.",
+     trusted_base=FFT_TRUST + ["relational Kani runs: 12-20 input frames, ratios 1, 2, 1/2 (fft 2/3), harness-defined copying sinc interpolator / data-preserving FFT plans"],
+     assumptions=list(tierb_async.ASSUME_TEXT))
 
 from . import known  # noqa: E402
 for _p in ("C03", "C04", "C06", "C14"):
